@@ -38,7 +38,7 @@ func tText(c context, s []byte) (context, int) {
 			return c, len(s)
 		} else if i+4 <= len(s) && bytes.Equal(commentStart, s[i:i+4]) {
 			// The comment is inside the element that the text is in.
-			return context{state: stateHTMLCmt, element: c.element}, i + 4
+			return context{state: stateHTMLCmt, element: c.element, enclosing: c.enclosing}, i + 4
 		}
 		i++
 		end := false
@@ -51,16 +51,36 @@ func tText(c context, s []byte) (context, int) {
 		j, e := eatTagName(s, i)
 		if j != i {
 			// We've found an HTML tag.
-			ret := context{state: stateTag}
+			ret := context{state: stateTag, enclosing: c.enclosing}
 			// Element name not needed if we are at the end of the element.
 			if !end {
 				ret.element = e
+				if ret.enclosing == "" {
+					ret.enclosing = forbiddingElement(c)
+				}
+			} else if c.enclosing == e.name {
+				ret.enclosing = ""
 			}
 			ret.element.partial = j == len(s)
 			return ret, j
 		}
 		k = j
 	}
+}
+
+// forbiddingElement returns the name of the element that c is in if actions are not allowed
+// in its content ("*" if it has no single name), and "" otherwise.
+func forbiddingElement(c context) string {
+	if c.element.name == "" && len(c.element.names) == 0 {
+		return ""
+	}
+	if _, err := sanitizerForElementContent(c); err == nil && !c.element.continued {
+		return ""
+	}
+	if len(c.element.names) > 0 || c.element.continued {
+		return "*"
+	}
+	return c.element.name
 }
 
 // specialElements contains the names of elements whose bodies are treated
@@ -120,6 +140,7 @@ func tTag(c context, s []byte) (context, int) {
 			element:    c.element,
 			scriptType: c.scriptType,
 			linkRel:    c.linkRel,
+			enclosing:  c.enclosing,
 		}
 		// The element names of other conditional branches count as well.
 		names := c.element.names
@@ -160,10 +181,11 @@ func tTag(c context, s []byte) (context, int) {
 		state = stateAfterName
 	}
 	return context{
-		state:   state,
-		element: c.element,
-		attr:    attr{name: strings.ToLower(string(s[i:j]))},
-		linkRel: c.linkRel,
+		state:     state,
+		element:   c.element,
+		attr:      attr{name: strings.ToLower(string(s[i:j]))},
+		linkRel:   c.linkRel,
+		enclosing: c.enclosing,
 	}, j
 }
 
@@ -239,10 +261,10 @@ func tHTMLCmt(c context, s []byte) (context, int) {
 	// A comment ends with "-->" or with "--!>".
 	i := bytes.Index(s, commentEnd)
 	if j := bytes.Index(s, commentEndBang); j != -1 && (i == -1 || j < i) {
-		return context{element: c.element}, j + 4
+		return context{element: c.element, enclosing: c.enclosing}, j + 4
 	}
 	if i != -1 {
-		return context{element: c.element}, i + 3
+		return context{element: c.element, enclosing: c.enclosing}, i + 3
 	}
 	return c, len(s)
 }
@@ -257,7 +279,7 @@ var (
 func tSpecialTagEnd(c context, s []byte) (context, int) {
 	if specialElements[c.element.name] {
 		if i := indexTagEnd(s, []byte(c.element.name)); i != -1 {
-			return context{}, i
+			return context{enclosing: c.enclosing}, i
 		}
 	}
 	return c, len(s)
